@@ -360,10 +360,17 @@ class NumpyFloatToFixConverter(object):
         # Saturate the values
         vals = np.clip(vals, self.min_value, self.max_value)
 
+        # The upper bound is not exactly representable as a float when it
+        # needs more than 53 bits: it rounds *up* and casting it would
+        # overflow.  Values reaching the (rounded) bound saturate explicitly.
+        saturated = vals >= float(self.max_value)
+        vals = np.where(saturated, 0.0, vals)
+
         # **NOTE** for some reason just casting resulted in shape
         # being zeroed on some indeterminate selection of OSes,
         # architectures, Python and Numpy versions"
-        return np.array(vals, copy=True, dtype=self.dtype)
+        return np.where(saturated, self.dtype(self.max_value),
+                        np.array(vals, copy=True, dtype=self.dtype))
 
 
 class NumpyFixToFloatConverter(object):
